@@ -119,6 +119,10 @@ SCENARIOS = [
     ("sizeof: context-sized region without its key", "Struct('body'/Struct('blob'/FixedSized(this._._params.n, GreedyBytes)))", "sizeof", None, lambda n: " -> ".join(["(sizeof)", "body", "blob"]), ()),
     ("sizeof: context-sized region, one level", "Struct('blob'/FixedSized(this._params.n, GreedyBytes), 't'/Byte)", "sizeof", None, lambda n: " -> ".join(["(sizeof)", "blob"]), ()),
     ("sizeof: context-sized bytes and padding", "Struct('a'/Struct('p'/Padded(this._._params.n, Byte)), 'b'/Bytes(this._params.m))", "sizeof", None, lambda n: " -> ".join(["(sizeof)", "a", "p"]), ()),
+    ("sizeof: condition key missing, unsizable named branch", "Struct('rec'/Struct('value'/IfThenElse(this._._params.flag, 'wide'/VarInt, 'narrow'/Byte)))", "sizeof", None, lambda n: " -> ".join(["(sizeof)", "rec", "value"]), ()),
+    ("sizeof: condition key missing, branches of equal size", "Struct('rec'/Struct('value'/IfThenElse(this._._params.flag, 'x'/Int16ub, 'y'/Int16sb)))", "sizeof", None, lambda n: " -> ".join(["(sizeof)", "rec", "value"]), ()),
+    ("sizeof: switch key missing", "Struct('rec'/Struct('value'/Switch(this._._params.k, {1: 'a'/Byte, 2: 'b'/Byte})))", "sizeof", None, lambda n: " -> ".join(["(sizeof)", "rec", "value"]), ()),
+    ("truncated input from a source that can only read", "Struct('a'/Byte, 'b'/Struct('c'/Int16ub, 'd'/Bytes(2)))", "parse-ro", [0, 1, 2, 3, 4], lambda n: _p("a") if n < 1 else (_p("b", "c") if n < 3 else _p("b", "d")), ()),
     ("build: float32 out of range", "Struct('m'/Struct('f'/Float32b, 'g'/Byte))", "build", dict(m=dict(f=1e39, g=1)), lambda n: _b("m", "f"), ()),
     ("build: float16 out of range", "Struct('m'/Array(2, 'h'/Float16l))", "build", dict(m=[1.0, 70000.0]), lambda n: _b("m", "h"), ()),
     ("build: integer out of range", "Struct('m'/Struct('i'/Int8ub))", "build", dict(m=dict(i=256)), lambda n: _b("m", "i"), ()),
@@ -148,7 +152,18 @@ def _scenario(ctx, C, p):
     for b in data:
         for f in forbid:
             ctx.assume(b != f)
-    r = api.outcome(d.parse, prefix + data if prefix else data)
+    if op == "parse-ro":
+        class ReadOnly:
+            """a source that offers read() and nothing else (a pipe, a socket file)"""
+
+            def __init__(self, inner):
+                self._inner = inner
+
+            def read(self, n=-1):
+                return self._inner.read(n)
+        r = api.outcome(d.parse_stream, ReadOnly(ctx.stream(data)))
+    else:
+        r = api.outcome(d.parse, prefix + data if prefix else data)
     ctx.check("parsing %d bytes fails with a ConstructError" % n, (not r.ok) and isinstance(r.exc, C.ConstructError))
     ctx.check("%d bytes: path %r (got %r)" % (n, want(n), getattr(r.exc, "path", None)), r.exc.path == want(n))
     return "ok"
